@@ -304,6 +304,45 @@ mod decoder {
         None
     }
 
+    /// C17, option use: `cmd -<c>x` is (with the help feature: unless c is `h`) not a help request and its arguments
+    /// are the short options c and x
+    fn short_option(c: char) -> Option<Cex> {
+        use embedded_cli::arguments::Arg;
+        use embedded_cli::command::RawCommand;
+        use embedded_cli::token::Tokens;
+        let line = format!("cmd -{}x", c);
+        crate::note(&format!("short option U+{:04X}: line {:?}", c as u32, line));
+        let mut owned = line.clone();
+        let tokens = Tokens::new(owned.as_mut_str());
+        let cmd = RawCommand::from_tokens(&tokens)?;
+        let got: Vec<String> = cmd
+            .args()
+            .args()
+            .map(|a| match a {
+                Arg::ShortOption(s) => format!("Short(U+{:04X})", s as u32),
+                Arg::LongOption(n) => format!("Long({})", crate::lib_str(n)),
+                Arg::Value(v) => format!("Value({})", crate::lib_str(v)),
+                Arg::DoubleDash => "DoubleDash".to_string(),
+            })
+            .collect();
+        let want = vec![format!("Short(U+{:04X})", c as u32), "Short(U+0078)".to_string()];
+        if got != want {
+            return Some(Cex { input: format!("U+{:04X} as a short option: arguments of {:?}", c as u32, line), expected: format!("{:?}", want), actual: format!("{:?}", got) });
+        }
+        #[cfg(feature = "help")]
+        {
+            let is_help = embedded_cli::help::HelpRequest::from_command(&cmd).is_some();
+            if is_help != (c == 'h') {
+                return Some(Cex {
+                    input: format!("U+{:04X} as a short option: HelpRequest::from_command of {:?}", c as u32, line),
+                    expected: format!("help request: {}", c == 'h'),
+                    actual: format!("help request: {}", is_help),
+                });
+            }
+        }
+        None
+    }
+
     /// C17, typing: every scalar value >= U+0020 other than DEL, in a stream where it stands next to characters of
     /// every encoded length on both sides, must come out of the decoder as exactly one Char event carrying its encoding
     pub fn run_scalars() -> Option<Cex> {
@@ -319,6 +358,12 @@ mod decoder {
                 text.push(c);
             }
             text.push('a');
+            // ... and used as a short option: only `h` is reserved for help, every other scalar value arrives as itself
+            if c != ' ' && c != '"' && c != '\\' && c != '-' {
+                if let Some(cex) = short_option(c) {
+                    return Some(cex);
+                }
+            }
             crate::note_bytes("typed: ", text.as_bytes());
             let exp: Vec<Ev> = text.chars().map(|ch| Ev::Char(ch.to_string().into_bytes())).collect();
             match real_events(text.as_bytes()) {
@@ -970,12 +1015,39 @@ pub mod writer_driver {
                 let mut w = Writer::new(&mut sink);
                 for _ in 0..r.below(5) {
                     let t = rand_string(r, &alpha, 4);
-                    if r.below(3) == 0 {
+                    let k = r.below(9);
+                    if k < 3 {
                         write!(trace, " writeln_str({:?})", t).unwrap();
                         crate::note(&trace);
                         w.writeln_str(&t).unwrap();
                         exp.extend(lf_to_crlf(&t));
                         exp.extend(b"\r\n");
+                    } else if k == 3 {
+                        // formatted writes (C13: "via write_str, writeln_str and formatted writes"): core::fmt, text and chars
+                        write!(trace, " write!(\"{{}}\", {:?})", t).unwrap();
+                        crate::note(&trace);
+                        core::fmt::Write::write_fmt(&mut w, format_args!("{}", t)).unwrap();
+                        exp.extend(lf_to_crlf(&t));
+                    } else if k == 4 {
+                        for c in t.chars() {
+                            write!(trace, " write!(\"{{}}\", {:?})", c).unwrap();
+                            crate::note(&trace);
+                            core::fmt::Write::write_fmt(&mut w, format_args!("{}", c)).unwrap();
+                        }
+                        exp.extend(lf_to_crlf(&t));
+                    } else if k == 5 {
+                        // ... and ufmt
+                        write!(trace, " uwrite!(\"{{}}\", {:?})", t).unwrap();
+                        crate::note(&trace);
+                        ufmt::uwrite!(&mut w, "{}", t.as_str()).unwrap();
+                        exp.extend(lf_to_crlf(&t));
+                    } else if k == 6 {
+                        for c in t.chars() {
+                            write!(trace, " uwrite!(\"{{}}\", {:?})", c).unwrap();
+                            crate::note(&trace);
+                            ufmt::uwrite!(&mut w, "{}", c).unwrap();
+                        }
+                        exp.extend(lf_to_crlf(&t));
                     } else {
                         write!(trace, " write_str({:?})", t).unwrap();
                         crate::note(&trace);
